@@ -327,11 +327,19 @@ def go_build(pkg, out_name, tags=("verif",), race=False, cwd=None):
 # ----------------------------------------------------------------------------------------------
 
 def load_known():
+    """known-findings.json plus one optional file per property under known-findings.d/."""
+    out = []
     p = os.path.join(VERIF, "known-findings.json")
-    if not os.path.exists(p):
-        return []
-    with open(p) as fh:
-        return json.load(fh).get("findings", [])
+    if os.path.exists(p):
+        with open(p) as fh:
+            out += json.load(fh).get("findings", [])
+    d = os.path.join(VERIF, "known-findings.d")
+    if os.path.isdir(d):
+        for f in sorted(os.listdir(d)):
+            if f.endswith(".json"):
+                with open(os.path.join(d, f)) as fh:
+                    out += json.load(fh).get("findings", [])
+    return out
 
 
 class Check:
@@ -429,6 +437,43 @@ class Check:
             sys.exit(1)
         print("OK property=%s tier=%s seed=%d wall=%.1fs" % (self.pid, self.tier, self.seed, time.time() - _T0))
         sys.exit(0)
+
+
+def harness_results(ck, p, what_prefix=""):
+    """Consume a harness's ndjson stdout (vhlib protocol): fail -> ck.violation, sample -> ck.sample.
+    Returns the summary record; raises InfraError if the harness died or printed no summary."""
+    summary = None
+    drift = 0
+    for line in p.stdout.decode(errors="replace").splitlines():
+        if not line.startswith("{"):
+            continue
+        try:
+            r = json.loads(line)
+        except ValueError:
+            continue
+        k = r.get("kind")
+        if k == "fail":
+            ck.violation(r["sig"], what_prefix + r["what"], r["case"])
+        elif k == "sample":
+            ck.sample(r["case"])
+        elif k == "drift":
+            drift += 1
+            if drift <= 5:
+                ck.notes.append("model drift: %s %s" % (r.get("what"), json.dumps(r.get("case"))[:300]))
+        elif k == "summary":
+            summary = r
+    if drift:
+        ck.add("model_drift_cases", drift)
+    if p.returncode != 0 or summary is None:
+        raise InfraError("harness failed rc=%s: %s" % (p.returncode, (p.stderr or b"").decode(errors="replace")[-3000:]))
+    return summary
+
+
+def write_ndjson(path, records):
+    with open(path, "w") as fh:
+        for r in records:
+            fh.write(json.dumps(r) + "\n")
+    return path
 
 
 def main(fn):
